@@ -19,13 +19,14 @@ structure Frame (s s' : St) : Prop where
   snap_ver : ∀ i, i < s.nSnap → (s'.snap i).ver = (s.snap i).ver
   snap_open : ∀ i, i < s.nSnap → (s'.snap i).st = .opened →
     (s.snap i).st = .opened ∧ ∀ f ∈ (s.snap i).held, f ∈ (s'.snap i).held
+  hist_grows : ∀ e ∈ s.hist, e ∈ s'.hist
 
 theorem Frame.refl (s : St) : Frame s s := by
   constructor <;> simp
 
 theorem Frame.trans {a b c : St} (h1 : Frame a b) (h2 : Frame b c) : Frame a c := by
-  obtain ⟨a1, a2, a3, a4, a5, a6, a7⟩ := h1
-  obtain ⟨b1, b2, b3, b4, b5, b6, b7⟩ := h2
+  obtain ⟨a1, a2, a3, a4, a5, a6, a7, a8⟩ := h1
+  obtain ⟨b1, b2, b3, b4, b5, b6, b7, b8⟩ := h2
   constructor
   · omega
   · intro v hv; rw [b2 v (by omega), a2 v hv]
@@ -37,6 +38,7 @@ theorem Frame.trans {a b c : St} (h1 : Frame a b) (h2 : Frame b c) : Frame a c :
     obtain ⟨x1, x2⟩ := b7 i (by omega) ho
     obtain ⟨y1, y2⟩ := a7 i hi x1
     exact ⟨y1, fun f hf => x2 f (y2 f hf)⟩
+  · intro e he; exact b8 e (a8 e he)
 
 theorem removeVersion_frame (cfg : Cfg) (s : St) (v : Nat) : Frame s (removeVersion cfg s v) := by
   unfold removeVersion; split <;> constructor <;> simp
